@@ -511,6 +511,14 @@ CLEAR_OLD = "        if isinstance(self.right, Parameter):\n            self.rig
 CORPUS["C16"] += [B("cache clearing stops at a numeric operand", "R16.10", (PARAM, CLEAR_OLD, "        for operand in (self.left, self.right):\n            if not isinstance(operand, Parameter):\n                break\n            operand._clear_cache()\n")),
                   E("cache clearing as a loop with continue", (PARAM, CLEAR_OLD, "        for operand in (self.left, self.right):\n            if not isinstance(operand, Parameter):\n                continue\n            operand._clear_cache()\n"))]
 
+
+CF_OLD = "        self.current_func = lambda t: {\n            key: J_scale * value for key, value in current_func(t).items()\n        }\n"
+CF_STATEFUL = (SOLVER, CF_OLD, "        scaled_currents = {name: 0.0 for name in terminal_names}\n\n        def scaled_current_func(t):\n            for key, value in current_func(t).items():\n                scaled_currents[key] = J_scale * value\n            return scaled_currents\n\n        self.current_func = scaled_current_func\n")
+CF_FRESH = (SOLVER, CF_OLD, "        def scaled_current_func(t):\n            scaled = {}\n            for key, value in current_func(t).items():\n                scaled[key] = J_scale * value\n            return scaled\n\n        self.current_func = scaled_current_func\n")
+CORPUS["C09"] += [B("scaled currents kept in a dict captured by the closure", "R09.9", CF_STATEFUL), E("scaled currents built in a fresh dict by a nested def", CF_FRESH)]
+CORPUS["C11"] += [B("scaled currents kept in a dict captured by the closure", "R11.10", CF_STATEFUL)]
+CORPUS["C01"] += [E("scaled currents built in a fresh dict by a nested def", CF_FRESH)]
+
 # ---------------------------------------------------------------------------
 # generic behaviour-preserving transformations of the anchor functions
 # ---------------------------------------------------------------------------
